@@ -112,36 +112,41 @@ def check(ctx, run):
         hh = W.hedger(prog, [W.feature("Moneyness", log=False)])
         d = W.option()
         res = [r for r in interp.explore(m, [d], {"hedge": hedge}, self_obj=hh) if not r["raises"]]
-        if len(res) != 1:
-            raise AnalysisError(f"Hedger.{meth}: expected one path")
-        calls = [e for e in res[0]["events"] if e["kind"] == "call" and e["callee"] == "pfhedge.nn.functional.pl"]
-        hcalls = [e for e in res[0]["events"] if e["kind"] == "call" and e["callee"].endswith("Hedger.compute_hedge")]
+        if not res:
+            raise AnalysisError(f"Hedger.{meth}: no analysable path")
         problems = []
-        if len(calls) != 1:
-            problems.append(f"{len(calls)} calls to pl")
-        else:
-            kw = dict(calls[0]["kwargs"])
-            for k, v in zip(("spot", "unit", "cost", "payoff"), calls[0]["args"]):
-                kw[k] = v
-            sp_ = kw.get("spot")
-            if not (isinstance(sp_, Op) and sp_.op == "stack" and [str(x) for x in sp_.args[0]] == [n_ + ".spot" for n_ in hnames] and sp_.kwd().get("dim") == 1):
-                problems.append(f"spot is {str(sp_)[:80]}, expected stack([h.spot for h in hedge], dim=1)")
-            cost = kw.get("cost")
-            if not (isinstance(cost, list) and [str(x) for x in cost] == [n_ + ".cost" for n_ in hnames]):
-                problems.append(f"cost is {str(cost)[:80]}, expected [h.cost for h in hedge]")
-            if len(hcalls) != 1 or [getattr(x, "name", None) for x in (hcalls[0]["kwargs"].get("hedge") or (hcalls[0]["args"][1] if len(hcalls[0]["args"]) > 1 else []))] != hnames:
-                problems.append("unit is not compute_hedge(derivative, hedge=<the same list>)")
-            unit = kw.get("unit")
-            if not (isinstance(unit, Op) and unit.op == "transpose"):
-                problems.append(f"unit is {str(unit)[:60]}")
-            pay = kw.get("payoff")
-            if want_payoff:
-                if not (pay is not None and any(isinstance(s, Op) and s.op == "abstract" and "payoff_fn" in str(s.args[0]) for s in walk(pay)) and any(isinstance(s, Op) and s.op == "loop" for s in walk(pay))):
-                    problems.append(f"payoff is {str(pay)[:80]}, expected derivative.payoff() (payoff_fn folded through the clauses)")
-            elif pay is not None:
-                problems.append("compute_portfolio passes a payoff")
-            if kw.get("deduct_first_cost", True) is not True:
-                problems.append("deduct_first_cost overridden")
+        for r0 in res:  # every path (a helper may branch on the costs, the training flag, ...) must wire pl() the same way
+            calls = [e for e in r0["events"] if e["kind"] == "call" and e["callee"] == "pfhedge.nn.functional.pl"]
+            hcalls = [e for e in r0["events"] if e["kind"] == "call" and e["callee"].endswith("Hedger.compute_hedge")]
+            if len(calls) != 1:
+                problems.append(f"{len(calls)} calls to pl")
+            else:
+                kw = dict(calls[0]["kwargs"])
+                for k, v in zip(("spot", "unit", "cost", "payoff"), calls[0]["args"]):
+                    kw[k] = v
+                sp_ = kw.get("spot")
+                if not (isinstance(sp_, Op) and sp_.op == "stack" and [str(x) for x in sp_.args[0]] == [n_ + ".spot" for n_ in hnames] and sp_.kwd().get("dim") == 1):
+                    problems.append(f"spot is {str(sp_)[:80]}, expected stack([h.spot for h in hedge], dim=1)")
+                cost = kw.get("cost")
+                all_zero = any(isinstance(c_, Op) and c_.op == "any" and d_ is False and c_.args
+                               and [str(x) for x in (c_.args[0] if isinstance(c_.args[0], (list, tuple)) else [c_.args[0]])] == [n_ + ".cost" for n_ in hnames] for c_, d_, _ in r0["cond"])
+                if cost is None and all_zero:
+                    pass  # costs skipped on the path where none of them is non-zero: the same value
+                elif not (isinstance(cost, list) and [str(x) for x in cost] == [n_ + ".cost" for n_ in hnames]):
+                    problems.append(f"cost is {str(cost)[:80]}, expected [h.cost for h in hedge]")
+                if len(hcalls) != 1 or [getattr(x, "name", None) for x in (hcalls[0]["kwargs"].get("hedge") or (hcalls[0]["args"][1] if len(hcalls[0]["args"]) > 1 else []))] != hnames:
+                    problems.append("unit is not compute_hedge(derivative, hedge=<the same list>)")
+                unit = kw.get("unit")
+                if not (isinstance(unit, Op) and unit.op == "transpose"):
+                    problems.append(f"unit is {str(unit)[:60]}")
+                pay = kw.get("payoff")
+                if want_payoff:
+                    if not (pay is not None and any(isinstance(s, Op) and s.op == "abstract" and "payoff_fn" in str(s.args[0]) for s in walk(pay)) and any(isinstance(s, Op) and s.op == "loop" for s in walk(pay))):
+                        problems.append(f"payoff is {str(pay)[:80]}, expected derivative.payoff() (payoff_fn folded through the clauses)")
+                elif pay is not None:
+                    problems.append("compute_portfolio passes a payoff")
+                if kw.get("deduct_first_cost", True) is not True:
+                    problems.append("deduct_first_cost overridden")
         ok = not problems
         run.oblige("C01.R4", f"Hedger.{meth}" + ("" if nh == 2 else f" [{nh} hedging instrument(s)]"), ok, "; ".join(problems) or "spot/unit/cost from one hedge list, payoff as required",
                    sample={"rule": "C01.R4", "site": meth, "problems": problems})
@@ -175,8 +180,8 @@ def check(ctx, run):
         d = W.option()
         res = [r for r in interp.explore(pn, [], dict(derivative=d, hedge=given, n_paths=n_, init_state=st_), self_obj=hh) if not r["raises"]]
         problems = []
-        if len(res) != 1:
-            raise AnalysisError("Hedger.compute_pnl: expected one path")
+        if not res:
+            raise AnalysisError("Hedger.compute_pnl: no analysable path")
         seq = [e for e in res[0]["events"] if e["kind"] == "call" and (e["callee"].endswith("BaseDerivative.simulate") or e["callee"].endswith("Hedger.compute_pl"))]
         own = [e for e in seq if e.get("fn", "").endswith("Hedger.compute_pnl")]
         names = [e["callee"].rsplit(".", 1)[-1] for e in own]
